@@ -198,6 +198,22 @@ func c07Ops() []histOp {
 	ops = append(ops, decOp("TU:dec(with unknown fields)", tu, tuMsg, nil), decOp("TU:dec(no unknown fields)", tu, ref.Encode(tu, plain), nil),
 		decOp("TU:dec(unknown, truncated)", tu, tuMsg[:len(tuMsg)-3], nil), decOp("TU:dec(no unknown onto prior holder)", tu, ref.Encode(tu, plain), tuv))
 	ops = append(ops, encOps("TU", tu, tuv)...)
+	// more unknown fields at one level than any small inline capacity
+	var manyUnk []byte
+	for i := 0; i < 13; i++ {
+		manyUnk = append(manyUnk, ref.WI32, 0x60, byte(i), 0, 0, 1, byte(i))
+	}
+	tuMany := tuv.Clone()
+	tuMany.Unk = manyUnk
+	ops = append(ops, decOp("TU:dec(13 unknown fields)", tu, ref.Encode(tu, tuMany), nil), decOp("TU:dec(13 unknown fields, truncated)", tu, ref.Encode(tu, tuMany)[:60], nil))
+	// registrations that fail in different ways (each must leave no trace)
+	for _, d := range badDefs() {
+		switch d.class {
+		case "pointer:list-element", "syntax:missing-gt", "duplicate-id", "annotation-mismatch:struct-name-in-list", "pointer:to-map", "map-key:struct-by-value":
+			rt := reflect.StructOf(d.fields)
+			ops = append(ops, histOp{"Invalid(" + d.class + "):enc", func() string { b := make([]byte, 64); return obsEnc(Enc(b, reflect.New(rt).Interface()), b) }})
+		}
+	}
 
 	// one named Go type declared as enum in one struct and as plain i64 in another (same Go field type)
 	ea := mk(fd(1, D, sc(ref.KEnum)), fd(2, D, universe.ListOf(sc(ref.KEnum))))
